@@ -3,7 +3,8 @@ import Slock.Model.Aof
 /-! Driver commands for M-AOF.
 
 * `aofload <cfgBuf> <now> <rechex>:<dathex|x> …` → `<hex64>/<blobhex|n>,… ;ok|err` (records handed to the engine by `LoadAofFiles`)
-* `aofappend <cfgBuf> <rechex>:<dathex|x> <hex64>/<blobhex|n>,…` → `<rechex>:<dathex>` (reopen in append mode, write, close)
+* `aofappend <writerBuf> <readerBuf> <rechex>:<dathex|x> <hex64>/<blobhex|n>,…` → `<rechex>:<dathex>` (start-up load — which cuts a
+  torn two-file tail —, reopen in append mode, write, close)
 * `aofflusherr <cfgBuf> <recsA> <recsB>` → `<rechex>:<dathex>`: recsA written, the flush fails at the record write, recsB written + flushed
 * `aofwrites <cfgBuf> <hex64>/<blobhex|n>,…` → `rec:dat,…` sizes after each writer call
 * `aofdl <eflag> <E> <grant> <journal> <reload>` → `commandTime age stored skipped restoredExpried`
@@ -133,11 +134,12 @@ def handleAof : List String → Option String
     let imgs ← files.mapM parseImg
     let (rs, ok) := loadFiles cfg now imgs
     pure (showRecs rs ++ ";" ++ (if ok then "ok" else "err"))
-  | ["aofappend", cfg, img, more] => do
+  | ["aofappend", cfg, rcfg, img, more] => do
     let cfg ← cfg.toNat?
+    let rcfg ← rcfg.toNat?
     let img ← parseImg img
     let more ← parseRecs more
-    let (r, d) := appendAfterRestart cfg img.log img.dat more
+    let (r, d) := appendAfterRestart cfg rcfg img.log img.dat more
     pure (showImg r d)
   | ["aofflusherr", cfg, a, b] => do
     let cfg ← cfg.toNat?
